@@ -50,13 +50,13 @@ type hint struct {
 }
 
 type target struct {
-	Dir   string          // package directory relative to the repository root
-	Func  string          // "name" or "Type.name"
-	Name  string          // Gallina name
-	Hints map[string]hint // source text of an expression -> parameter
-	Errs  map[string]int  // named error variables -> code
-	Calls map[string]string // callee source text (e.g. "calculateStartTime") -> Gallina function (another target), args passed positionally
-	Inline []string         // same-package functions whose bodies are inlined at their call sites (arguments must be the
+	Dir    string            // package directory relative to the repository root
+	Func   string            // "name" or "Type.name"
+	Name   string            // Gallina name
+	Hints  map[string]hint   // source text of an expression -> parameter
+	Errs   map[string]int    // named error variables -> code
+	Calls  map[string]string // callee source text (e.g. "calculateStartTime") -> Gallina function (another target), args passed positionally
+	Inline []string          // same-package functions whose bodies are inlined at their call sites (arguments must be the
 	// caller's variables of the same names)
 }
 
@@ -75,7 +75,7 @@ var targets = []target{
 		Hints: map[string]hint{"r == nil": {"r_nil", "bool"}, "len(r.Resource) == 0": {"resource_empty", "bool"}}},
 	{Dir: "core/flow", Func: "IsValidRule", Name: "flow_IsValidRule",
 		Hints: map[string]hint{"rule == nil": {"rule_nil", "bool"}, `rule.Resource == ""`: {"resource_empty", "bool"},
-			`rule.RefResource == ""`: {"refResource_empty", "bool"},
+			`rule.RefResource == ""`:               {"refResource_empty", "bool"},
 			"int64(system_metric.TotalMemorySize)": {"total_memory", "int64"}}},
 	{Dir: "core/system", Func: "IsValidSystemRule", Name: "system_IsValidSystemRule",
 		Hints: map[string]hint{"rule == nil": {"rule_nil", "bool"}}},
@@ -84,10 +84,39 @@ var targets = []target{
 	{Dir: "core/hotspot", Func: "IsValidRule", Name: "hotspot_IsValidRule",
 		Hints: map[string]hint{"rule == nil": {"rule_nil", "bool"}, `rule.Resource == ""`: {"resource_empty", "bool"},
 			"len(rule.Resource) == 0": {"resource_empty", "bool"},
-			`rule.ParamKey != ""`: {"paramKey_nonempty", "bool"}, "len(rule.ParamKey) != 0": {"paramKey_nonempty", "bool"}},
+			`rule.ParamKey != ""`:     {"paramKey_nonempty", "bool"}, "len(rule.ParamKey) != 0": {"paramKey_nonempty", "bool"}},
 		Inline: []string{"checkControlBehaviorField"}},
 	{Dir: "core/flow", Func: "MemoryAdaptiveTrafficShapingCalculator.CalculateAllowedTokens", Name: "memoryAdaptive_CalculateAllowedTokens",
 		Hints: map[string]hint{"system_metric.CurrentMemoryUsage()": {"mem", "int64"}}},
+	// system: the rule predicate (C07)
+	{Dir: "core/system", Func: "AdaptiveSlot.doCheckRule", Name: "system_doCheckRule",
+		Hints: map[string]hint{
+			"stat.InboundNode().GetQPS(base.MetricEventPass)":        {"inbound_qps", "float64"},
+			"stat.InboundNode().CurrentConcurrency()":                {"inbound_concurrency", "int32"},
+			"stat.InboundNode().AvgRT()":                             {"inbound_avg_rt", "float64"},
+			"stat.InboundNode().MinRT()":                             {"inbound_min_rt", "float64"},
+			"stat.InboundNode().GetMaxAvg(base.MetricEventComplete)": {"inbound_max_complete", "float64"},
+			"system_metric.CurrentLoad()":                            {"load", "float64"},
+			"system_metric.CurrentCpuUsage()":                        {"cpu", "float64"}},
+		Inline: []string{"checkBbrSimple"}},
+	// rule equality / statistic reuse (C13, C14): which reloads keep a controller, which keep its statistics
+	{Dir: "core/flow", Func: "Rule.isEqualsTo", Name: "flow_isEqualsTo",
+		Hints: map[string]hint{"newRule == nil": {"newRule_nil", "bool"},
+			"r.Resource == newRule.Resource": {"resource_eq", "bool"}, "r.RefResource == newRule.RefResource": {"refResource_eq", "bool"}}},
+	{Dir: "core/flow", Func: "Rule.isStatReusable", Name: "flow_isStatReusable",
+		Hints: map[string]hint{"newRule == nil": {"newRule_nil", "bool"},
+			"r.Resource == newRule.Resource": {"resource_eq", "bool"}, "r.RefResource == newRule.RefResource": {"refResource_eq", "bool"}},
+		Inline: []string{"Rule.needStatistic"}},
+	{Dir: "core/circuitbreaker", Func: "Rule.isEqualsTo", Name: "circuitbreaker_isEqualsTo",
+		Hints:  map[string]hint{"newRule == nil": {"newRule_nil", "bool"}, "r.Resource == newRule.Resource": {"resource_eq", "bool"}},
+		Inline: []string{"Rule.isEqualsToBase"}},
+	{Dir: "core/circuitbreaker", Func: "Rule.isStatReusable", Name: "circuitbreaker_isStatReusable",
+		Hints: map[string]hint{"newRule == nil": {"newRule_nil", "bool"}, "r.Resource == newRule.Resource": {"resource_eq", "bool"}}},
+	{Dir: "core/hotspot", Func: "Rule.Equals", Name: "hotspot_Equals",
+		Hints: map[string]hint{"r.Resource == newRule.Resource": {"resource_eq", "bool"}, "r.ParamKey == newRule.ParamKey": {"paramKey_eq", "bool"},
+			"reflect.DeepEqual(r.SpecificItems, newRule.SpecificItems)": {"specificItems_eq", "bool"}}},
+	{Dir: "core/hotspot", Func: "Rule.IsStatReusable", Name: "hotspot_IsStatReusable",
+		Hints: map[string]hint{"r.Resource == newRule.Resource": {"resource_eq", "bool"}}},
 }
 
 // ---------------------------------------------------------------------------------------------
@@ -95,10 +124,10 @@ var targets = []target{
 type pkgInfo struct {
 	fset    *token.FileSet
 	files   []*ast.File
-	funcs   map[string]*ast.FuncDecl        // "name" / "Type.name"
-	structs map[string]map[string]ast.Expr  // struct name -> field -> type expr
-	named   map[string]ast.Expr             // named type -> underlying type expr
-	consts  map[string]constVal             // integer constants
+	funcs   map[string]*ast.FuncDecl       // "name" / "Type.name"
+	structs map[string]map[string]ast.Expr // struct name -> field -> type expr
+	named   map[string]ast.Expr            // named type -> underlying type expr
+	consts  map[string]constVal            // integer constants
 }
 
 type constVal struct {
@@ -292,8 +321,8 @@ func fail(format string, a ...interface{}) { panic(untranslatable{fmt.Sprintf(fo
 
 type val struct {
 	coq string
-	typ string   // Go basic type, or "untyped-int" / "untyped-float" / "error" / "tuple"
-	lit string   // for untyped constants: the literal text
+	typ string // Go basic type, or "untyped-int" / "untyped-float" / "error" / "tuple"
+	lit string // for untyped constants: the literal text
 }
 
 type rootT struct {
@@ -336,14 +365,15 @@ func (p *pkgInfo) importDir(name string) string {
 }
 
 type tr struct {
-	root   *rootT
-	p      *pkgInfo
-	t      target
-	params map[string]string // free variables: name -> Go type
-	vars   map[string]string // local variables / Go params: Go name -> type ("ptr:Struct" for struct pointers)
-	results []string         // named results
+	root     *rootT
+	p        *pkgInfo
+	t        target
+	params   map[string]string // free variables: name -> Go type
+	vars     map[string]string // local variables / Go params: Go name -> type ("ptr:Struct" for struct pointers)
+	alias    map[string]string // inlined callee's struct parameter / receiver -> the caller's variable it stands for
+	results  []string          // named results
 	resTypes []string
-	fresh  int
+	fresh    int
 }
 
 var coqKeywords = map[string]bool{"end": true, "at": true, "in": true, "as": true, "fun": true, "return": true, "match": true,
@@ -355,6 +385,17 @@ func cname(s string) string {
 		return s + "_"
 	}
 	return s
+}
+
+func (x *tr) resolve(name string) string {
+	for i := 0; i < 10; i++ {
+		a, ok := x.alias[name]
+		if !ok {
+			return name
+		}
+		name = a
+	}
+	return name
 }
 
 func (x *tr) underlying(typ string) string {
@@ -502,7 +543,7 @@ func (x *tr) expr(e ast.Expr) val {
 						if !isBasic(ty) {
 							fail("field %s.%s has non-scalar type %s (add a hint)", sn, e.Sel.Name, ty)
 						}
-						return x.param(id.Name+"_"+e.Sel.Name, ty)
+						return x.param(x.resolve(id.Name)+"_"+e.Sel.Name, ty)
 					}
 				}
 				fail("unknown field %s of %s", e.Sel.Name, sn)
@@ -753,6 +794,12 @@ func (x *tr) call(e *ast.CallExpr) val {
 	case "math.Abs":
 		v := x.coerce(x.expr(e.Args[0]), "float64")
 		return val{coq: "(PrimFloat.abs " + v.coq + ")", typ: "float64"}
+	case "util.Float64Equals":
+		if len(e.Args) == 2 {
+			a := x.coerce(x.expr(e.Args[0]), "float64")
+			b := x.coerce(x.expr(e.Args[1]), "float64")
+			return val{coq: "(float64_equals " + a.coq + " " + b.coq + ")", typ: "bool"}
+		}
 	case "math.IsNaN":
 		v := x.coerce(x.expr(e.Args[0]), "float64")
 		return val{coq: "(negb (PrimFloat.eqb " + v.coq + " " + v.coq + "))", typ: "bool"}
@@ -810,50 +857,93 @@ func (x *tr) errVal(e ast.Expr) string {
 	return ""
 }
 
-// inline a same-package call f(a, b) whose arguments are the caller's variables named like f's parameters
+// inline a same-package call f(a, b) or method call v.m(a, b) listed in the target's Inline table.
+// Struct-pointer arguments must be variables: the callee's parameter becomes an alias of the caller's
+// variable (fields keep the caller's parameter names); scalar arguments are let-bound.
 func (x *tr) inline(ce *ast.CallExpr) (val, bool) {
-	id, ok := ce.Fun.(*ast.Ident)
-	if !ok {
+	var name string
+	var recvArg ast.Expr
+	switch f := ce.Fun.(type) {
+	case *ast.Ident:
+		name = f.Name
+	case *ast.SelectorExpr:
+		id, ok := f.X.(*ast.Ident)
+		if !ok {
+			return val{}, false
+		}
+		t, ok := x.vars[id.Name]
+		if !ok || !(strings.HasPrefix(t, "ptr:") || strings.HasPrefix(t, "struct:")) {
+			return val{}, false
+		}
+		name = t[strings.Index(t, ":")+1:] + "." + f.Sel.Name
+		recvArg = id
+	default:
 		return val{}, false
 	}
 	allowed := false
 	for _, n := range x.t.Inline {
-		if n == id.Name {
+		if n == name {
 			allowed = true
 		}
 	}
-	callee := x.p.funcs[id.Name]
+	callee := x.p.funcs[name]
 	if !allowed || callee == nil || callee.Body == nil {
 		return val{}, false
 	}
-	y := &tr{root: x.root, p: x.p, t: x.t, params: x.params, vars: map[string]string{}}
+	y := &tr{root: x.root, p: x.p, t: x.t, params: x.params, vars: map[string]string{}, alias: map[string]string{}}
+	pre := ""
+	bind := func(pname string, ptype ast.Expr, arg ast.Expr) {
+		pt := y.typeOfExpr(ptype)
+		if _, isStruct := x.p.structs[pt]; isStruct {
+			pt = "struct:" + pt
+		}
+		if strings.HasPrefix(pt, "ptr:") || strings.HasPrefix(pt, "struct:") {
+			a, ok := arg.(*ast.Ident)
+			if !ok {
+				fail("inlined call %s: struct argument must be a variable", name)
+			}
+			if _, ok := x.vars[a.Name]; !ok {
+				fail("inlined call %s: unknown variable %s", name, a.Name)
+			}
+			y.vars[pname] = pt
+			y.alias[pname] = x.resolve(a.Name)
+			return
+		}
+		v := x.coerce(x.expr(arg), pt)
+		y.vars[pname] = pt
+		pre += "let " + cname(pname) + " := " + v.coq + " in "
+	}
+	if callee.Recv != nil {
+		if recvArg == nil {
+			return val{}, false
+		}
+		for _, f := range callee.Recv.List {
+			for _, n := range f.Names {
+				bind(n.Name, f.Type, recvArg)
+			}
+		}
+	}
 	i := 0
 	for _, f := range callee.Type.Params.List {
 		for _, n := range f.Names {
 			if i >= len(ce.Args) {
-				fail("arity of %s", id.Name)
+				fail("arity of %s", name)
 			}
-			a, ok := ce.Args[i].(*ast.Ident)
-			if !ok || a.Name != n.Name {
-				fail("inlined call %s: argument %d must be the variable %s", id.Name, i, n.Name)
+			if n.Name != "_" {
+				bind(n.Name, f.Type, ce.Args[i])
 			}
-			t, ok := x.vars[a.Name]
-			if !ok {
-				fail("inlined call %s: unknown variable %s", id.Name, a.Name)
-			}
-			y.vars[n.Name] = t
 			i++
 		}
 	}
 	if callee.Type.Results == nil || len(callee.Type.Results.List) != 1 || len(callee.Type.Results.List[0].Names) != 0 {
-		fail("inlined call %s: exactly one unnamed result expected", id.Name)
+		fail("inlined call %s: exactly one unnamed result expected", name)
 	}
 	rt := y.typeOfExpr(callee.Type.Results.List[0].Type)
 	if src(x.p.fset, callee.Type.Results.List[0].Type) == "error" {
 		rt = "error"
 	}
 	y.resTypes = []string{rt}
-	return val{coq: "(" + y.exec(callee.Body.List, nil) + ")", typ: rt}, true
+	return val{coq: "(" + pre + y.exec(callee.Body.List, nil) + ")", typ: rt}, true
 }
 
 func isEffectCall(s string) bool {
@@ -891,8 +981,10 @@ func (x *tr) exec(stmts []ast.Stmt, rest [][]ast.Stmt) string {
 	case *ast.ReturnStmt:
 		if len(s.Results) == 0 {
 			var vs []string
-			for _, r := range x.results {
-				vs = append(vs, cname(r))
+			for i, r := range x.results {
+				if x.resTypes[i] != "string" {
+					vs = append(vs, cname(r))
+				}
 			}
 			return x.retTuple(vs)
 		}
@@ -901,6 +993,9 @@ func (x *tr) exec(stmts []ast.Stmt, rest [][]ast.Stmt) string {
 		}
 		var vs []string
 		for i, r := range s.Results {
+			if x.resTypes[i] == "string" {
+				continue
+			}
 			if x.resTypes[i] == "error" {
 				vs = append(vs, x.errVal(r))
 			} else {
@@ -920,6 +1015,13 @@ func (x *tr) exec(stmts []ast.Stmt, rest [][]ast.Stmt) string {
 		id, ok := s.Lhs[0].(*ast.Ident)
 		if !ok {
 			fail("assignment to %s", src(x.p.fset, s.Lhs[0]))
+		}
+		if t, ok := x.vars[id.Name]; ok && t == "string" && s.Tok == token.ASSIGN {
+			return x.exec(tail, rest) // message text: not part of the decision
+		}
+		if bl, ok := s.Rhs[0].(*ast.BasicLit); ok && bl.Kind == token.STRING && s.Tok == token.DEFINE {
+			x.vars[id.Name] = "string"
+			return x.exec(tail, rest)
 		}
 		var v val
 		switch s.Tok {
@@ -956,6 +1058,10 @@ func (x *tr) exec(stmts []ast.Stmt, rest [][]ast.Stmt) string {
 		vs := gd.Specs[0].(*ast.ValueSpec)
 		if len(vs.Names) != 1 || len(vs.Values) > 1 {
 			fail("declaration %s", src(x.p.fset, s))
+		}
+		if vs.Type != nil && src(x.p.fset, vs.Type) == "string" {
+			x.vars[vs.Names[0].Name] = "string"
+			return x.exec(tail, rest)
 		}
 		var v val
 		if len(vs.Values) == 1 {
@@ -1125,7 +1231,7 @@ func translate(root *rootT, t target) (def string, info outFn) {
 	if fd == nil || fd.Body == nil {
 		fail("function not found")
 	}
-	x := &tr{root: root, p: p, t: t, params: map[string]string{}, vars: map[string]string{}}
+	x := &tr{root: root, p: p, t: t, params: map[string]string{}, vars: map[string]string{}, alias: map[string]string{}}
 	addVar := func(name string, te ast.Expr) {
 		if name == "_" {
 			return
@@ -1174,10 +1280,15 @@ func translate(root *rootT, t target) (def string, info outFn) {
 			x.resTypes = append(x.resTypes, ty)
 			x.results = append(x.results, n.Name)
 			x.vars[n.Name] = ty
-			pre += "let " + cname(n.Name) + " := " + x.zero(ty) + " in\n  "
+			if ty != "string" {
+				pre += "let " + cname(n.Name) + " := " + x.zero(ty) + " in\n  "
+			}
 		}
 	}
 	for _, ty := range x.resTypes {
+		if ty == "string" {
+			continue // message strings are not part of the decision: dropped from the result tuple
+		}
 		if coqType(ty) == "?" {
 			fail("result type %s", ty)
 		}
@@ -1198,7 +1309,9 @@ func translate(root *rootT, t target) (def string, info outFn) {
 	}
 	var rts []string
 	for _, ty := range x.resTypes {
-		rts = append(rts, coqType(ty))
+		if ty != "string" {
+			rts = append(rts, coqType(ty))
+		}
 	}
 	rt := strings.Join(rts, " * ")
 	def = fmt.Sprintf("(* %s : %s   parameters: %v *)\nDefinition %s%s : %s :=\n  %s.\n", t.Dir, t.Func, info.Params, t.Name, sig, rt, body)
